@@ -433,6 +433,18 @@ class VRange(V):
         self.start, self.stop, self.step = start, stop, step
 
 
+class VGen(V):
+    """A generator object: the call of a repository generator function, not started yet.  Its body runs when it is
+    consumed; every `yield` hands the value to the consumer (interp.run_generator)."""
+
+    kind = "generator"
+
+    def __init__(self, fv, env):
+        self.fv = fv
+        self.env = env
+        self.started = False
+
+
 class VIter(V):
     """Concrete finite python iterable produced by enumerate/zip/items/... (list of V)."""
 
